@@ -39,3 +39,14 @@ Theorem C02_order_refuted :
                   <> option_map r_val (latest_at (writes ops) k v).
 Proof. exact out_of_order_refuted. Qed.
 Print Assumptions C02_order_refuted.
+
+(** Newest-version reads for whole histories of versioned writes (per key:
+    versions never decrease), memtable rotations and flushes, of any length
+    (Proofs/LsmPreserve.v). *)
+From NoKV Require Import Proofs.LsmInv Proofs.LsmPreserve.
+
+Theorem C02_versioned_memtables_l0 : forall m ops,
+  forallb mlf_op ops = true -> puts_monotone ops = true ->
+  forall k v, get (run (init m) ops) k v = latest_at (writes ops) k v.
+Proof. exact lww_memtables_l0. Qed.
+Print Assumptions C02_versioned_memtables_l0.
